@@ -98,6 +98,8 @@ pub struct Ctx {
     pub extra: Map<String, Value>,
     pub only: Option<u64>,
     pub only_seen: u64,
+    pub xlog: Vec<String>,
+    pub xcount: u64,
 }
 
 pub fn hx(x: f64) -> u64 {
@@ -142,6 +144,8 @@ impl Ctx {
             extra: Map::new(),
             only: None,
             only_seen: 0,
+            xlog: Vec::new(),
+            xcount: 0,
         }
     }
 
@@ -167,6 +171,15 @@ impl Ctx {
             self.only_seen += 1;
         }
         h
+    }
+
+    /// Sample of judged events for the independent Fraction re-check (oracle cross-check).
+    pub fn xsample(&mut self, form: &str, op: &str, p: u64, q: i64, ins: &[u64], outs: &[u64], ok: bool) {
+        self.xcount += 1;
+        if self.xcount % 257 == 0 && self.xlog.len() < 1500 {
+            let f = |w: &[u64]| w.iter().map(|x| format!("{x:016x}")).collect::<Vec<_>>().join(",");
+            self.xlog.push(format!("{form} {op} {p} {q} {} {} {}", f(ins), f(outs), ok as u8));
+        }
     }
 
     pub fn count(&mut self, key: &'static str) {
@@ -266,6 +279,7 @@ impl Ctx {
             }
         }
         self.only_seen += o.only_seen;
+        self.xlog.extend(o.xlog);
     }
 
     pub fn to_json(&self) -> Value {
@@ -330,6 +344,7 @@ impl Ctx {
             "counters": self.counters,
             "extra": self.extra,
             "only_seen": self.only_seen,
+            "xcheck": self.xlog,
         })
     }
 }
